@@ -14,6 +14,7 @@
 #include <algorithm>
 #include <cstring>
 #include <fstream>
+#include <sstream>
 #include <unistd.h>
 #include <omp.h>
 #ifndef C19_REAL_OMP
@@ -147,9 +148,50 @@ static void bin_case(const Mtx &m, const std::string &tag) {
     }
 }
 
+#ifdef C19_FAULTS
+#include "forkrun.hpp"
+// damaged binary CRS files read by an OpenMP build (real libgomp): a reader that validates inside a parallel region cannot hand
+// the error to the caller (an exception that leaves a parallel region terminates the process).  Every single-byte damage of the
+// top byte of every column index and of every row pointer, for 1 and 2 threads, full read and the middle row range; the child
+// must end with an exception or a structurally valid matrix.
+static void fault_case(const Mtx &m) {
+    CRS ref = reference(m);
+    std::string good;
+    { std::ostringstream f; size_t nn = m.n; f.write((const char*)&nn, sizeof nn); f.write((const char*)ref.ptr.data(), ref.ptr.size() * sizeof(ptrdiff_t)); f.write((const char*)ref.col.data(), ref.col.size() * sizeof(ptrdiff_t)); f.write((const char*)ref.val.data(), ref.val.size() * sizeof(double)); good = f.str(); }
+    const size_t ptr_beg = sizeof(size_t), col_beg = ptr_beg + ref.ptr.size() * sizeof(ptrdiff_t), nidx = ref.ptr.size() + ref.col.size();
+    for (size_t q = 0; q < nidx; ++q) {
+        std::string key = vf::KS() << "binflt|" << m.name << "|" << q;
+        if (!vf::take([&]{ return key; })) continue;
+        std::string bad = good; bad[ptr_beg + q * sizeof(ptrdiff_t) + 7] = (char)0x80;     // most significant byte: the index becomes negative
+        std::string fname = std::string(vf::KS() << "./c19f_" << (long)getpid() << ".bin");
+        { std::ofstream f(fname, std::ios::binary); f.write(bad.data(), bad.size()); }
+        for (int nt : {1, 2}) for (int range = 0; range < 2; ++range) {
+            fr::Result r = fr::run([&](fr::Out &o) {
+                omp_set_num_threads(nt);
+                CRS got; size_t rows = 0;
+                if (range) amgcl::io::read_crs(fname, rows, got.ptr, got.col, got.val, m.n / 3, m.n - m.n / 3); else amgcl::io::read_crs(fname, rows, got.ptr, got.col, got.val);
+                bool ok = !got.ptr.empty() && got.ptr[0] == 0 && (size_t)got.ptr.back() == got.col.size() && got.col.size() == got.val.size();
+                for (size_t i = 0; ok && i + 1 < got.ptr.size(); ++i) ok = got.ptr[i] <= got.ptr[i + 1];
+                for (size_t k = 0; ok && k < got.col.size(); ++k) ok = got.col[k] >= 0;
+                o << (ok ? "valid" : "INVALID-STRUCTURE");
+            }, 20.0);
+            vf::count("damaged_reads");
+            if (r.kind == fr::EXC) { vf::count("damaged_reads_rejected_by_exception"); continue; }
+            if (r.kind == fr::OK && r.text == "valid") { vf::count("damaged_reads_outside_the_range_or_harmless"); continue; }
+            vf::fail("threads.bin.damaged_file", key, vf::KS() << (q < ref.ptr.size() ? "row pointer " : "column index ") << (q < ref.ptr.size() ? q : q - ref.ptr.size()) << " made negative, " << nt << " thread(s), " << (range ? "middle row range" : "full read") << ": " << (r.kind == fr::OK ? "reader returned a structurally invalid matrix" : std::string("process ended with ") + r.kind_name() + " " + std::to_string(r.code)) << " :: " << r.err.substr(0, 160));
+            break;
+        }
+        unlink(fname.c_str());
+        vf::nontrivial(vf::hstr(key));
+    }
+}
+#endif
+
 int main(int argc, char **argv) {
     vf::init(argc, argv, "C19");
     vf::sample_str("threads case: 6x6 symmetric arrow matrix, coordinate file with mixed triangles and shuffled data lines, read by a team of 3: bitwise the stored matrix");
+#ifndef C19_FAULTS     // the fault unit forks its cases: its parent process must never have started an OpenMP region (a forked child of a
+                       // process whose libgomp pool exists waits forever in its first parallel region)
     if (vf::section("mmt") || vf::section("bint")) {
         for (int n : {3, 4, 6, 9}) for (int fam = 0; fam < 4; ++fam) for (int sym = 0; sym < 2; ++sym) { Mtx m = make(n, fam, sym); mm_case(m, "small"); bin_case(m, "small"); }
         // rows long and numerous enough that several threads are inside the per-row sort at the same time
@@ -160,5 +202,13 @@ int main(int argc, char **argv) {
         }
         vf::space("readers under OpenMP: 4 pattern families x n {3,4,6,9} + 3000-row band, general and symmetric coordinate files x 5 line orders x 3 triangle rules, binary CRS x 3 row entry orders, team sizes as listed in the unit");
     }
+#endif
+#ifdef C19_FAULTS
+    if (vf::section("binflt")) {
+        for (int fam = 0; fam < 2; ++fam) { Mtx m = make(6, fam, 0); fault_case(m); }
+        { Mtx m; m.n = 40; m.sym = false; m.name = "band40g"; for (int i = 0; i < m.n; ++i) for (int j = std::max(0, i - 2); j <= std::min(m.n - 1, i + 2); ++j) m.e.push_back({i, j, i == j ? 8.0 : -1.0 - 0.125 * ((i + j) % 3)}); fault_case(m); }
+        vf::space("damaged binary CRS files under real OpenMP: every row pointer / column index made negative (top byte 0x80) x {1,2} threads x {full read, middle row range}, forked children");
+    }
+#endif
     return vf::finish();
 }
